@@ -155,12 +155,16 @@ WideOp(op, l, r, S) ==
      [] op = ">=" -> R(VBool(~WLess(a, b)), S)
      [] op = "==" -> R(VBool(WEq(a, b)), S)
      [] op = "!=" -> R(VBool(~WEq(a, b)), S)
-     [] op = "+"  -> LET x == WAdd(a, b) IN IF WFits(x) THEN R(VWide(x), S) ELSE R(VVoid, Undef(S))
-     [] op = "-"  -> LET x == WSub(a, b) IN IF WFits(x) THEN R(VWide(x), S) ELSE R(VVoid, Undef(S))
+     \* int op int stays int (overflow is not documented: undef); anything with a long is a long
+     [] op \in {"+", "-", "*"} ->
+          LET x == IF op = "+" THEN WAdd(a, b) ELSE IF op = "-" THEN WSub(a, b) ELSE WMul(a, b) IN
+          IF l.t = "int" /\ r.t = "int" THEN (IF WFitsInt(x) THEN R(VInt(WToInt32(x)), S) ELSE R(VVoid, Undef(S)))
+          ELSE IF WFits(x) THEN R(VWide(x), S) ELSE R(VVoid, Undef(S))
      [] OTHER -> R(VVoid, Undef(S))
 IsIntLike(v) == v.t \in {"int", "long"}
 BinOp(op, l, r, S) ==
-   IF IsIntLike(l) /\ IsIntLike(r) /\ (IsWide(l) \/ IsWide(r)) THEN WideOp(op, l, r, S)
+   IF IsIntLike(l) /\ IsIntLike(r) /\ (IsWide(l) \/ IsWide(r) \/ ((TooBig(l) \/ TooBig(r)) /\ op \notin {"/", "%", "&", "|", "^", "&&", "||"}))
+   THEN WideOp(op, l, r, S)
    ELSE IF op \in {"&", "|", "^"} THEN Bitwise(op, l, r, S)
    ELSE IF op \in {"&&", "||"} THEN R(VBool(IF op = "&&" THEN Truthy(l) /\ Truthy(r) ELSE Truthy(l) \/ Truthy(r)), S)
    ELSE IF op = "+" /\ (l.t = "str" \/ r.t = "str") THEN
